@@ -75,6 +75,10 @@ pub enum Case {
         stream: Vec<u8>,
         slice_len: usize,
         chunking: Chunking,
+        /// the stream before it was cut short (resp. before the limit cuts
+        /// it): a content error the reader reports on the short input must
+        /// be the content error of these bytes
+        full: Option<Vec<u8>>,
     },
     /// reader on a damaged medium, result fully touched (C01)
     Mem {
@@ -699,6 +703,7 @@ pub fn check_cmp(
     stream: &[u8],
     slice_len: usize,
     chunking: Chunking,
+    full: Option<&[u8]>,
 ) -> Result<CObs, Fail> {
     let what = op.kind.name();
     let run = run_read(op, stream, &ReaderPlan::clean(chunking));
@@ -770,7 +775,22 @@ pub fn check_cmp(
         }
         // the slice decoder checks the minimum length first, the reader
         // validates bytes as they arrive: both reject a short input
-        (SOut::Len(a), ROut::Content(_)) if a.len_source == LenSource::Slice => {
+        (SOut::Len(a), ROut::Content(b)) if a.len_source == LenSource::Slice => {
+            // ... but the content error has to be real: decoding the uncut
+            // bytes from a slice must report the same content error (or be
+            // too short itself)
+            if let Some(full) = full {
+                match run_slice(op, full) {
+                    SOut::Content(c) if &c == b => return Ok(obs("both-reject-order-confirmed")),
+                    SOut::Len(l) if l.len_source == LenSource::Slice => {}
+                    other => {
+                        return fail(
+                            "content-error-not-confirmed",
+                            format!("{what}: the reader rejects the short input with {b}, but decoding the uncut {} bytes from a slice gives {other:?}", full.len()),
+                        )
+                    }
+                }
+            }
             Ok(obs("both-reject-order"))
         }
         (s, r) => fail(
@@ -846,7 +866,8 @@ impl Case {
                 stream,
                 slice_len,
                 chunking,
-            } => check_cmp(op, stream, *slice_len, *chunking).map(|_| ()),
+                full,
+            } => check_cmp(op, stream, *slice_len, *chunking, full.as_deref()).map(|_| ()),
             Case::Mem { op, stream, plan } => check_mem(op, stream, plan).map(|_| ()),
         }
     }
@@ -946,10 +967,17 @@ impl Case {
                 stream,
                 slice_len,
                 chunking,
-            } => rop(base.set("op", J::s("cmp")), op)
-                .set("stream", J::s(&hex(stream)))
-                .set("slice_len", J::u(*slice_len as u64))
-                .set("chunking", J::s(&chunking.name())),
+                full,
+            } => {
+                let j = rop(base.set("op", J::s("cmp")), op)
+                    .set("stream", J::s(&hex(stream)))
+                    .set("slice_len", J::u(*slice_len as u64))
+                    .set("chunking", J::s(&chunking.name()));
+                match full {
+                    Some(f) => j.set("full", J::s(&hex(f))),
+                    None => j,
+                }
+            }
             Case::Mem { op, stream, plan } => rplan(
                 rop(base.set("op", J::s("mem")), op).set("stream", J::s(&hex(stream))),
                 plan,
@@ -1044,6 +1072,10 @@ impl Case {
                 stream: stream()?,
                 slice_len: j.u64_of("slice_len")? as usize,
                 chunking: Chunking::parse(j.str_of("chunking")?)?,
+                full: match j.get("full") {
+                    Some(f) => Some(unhex(f.as_str().ok_or("full")?)?),
+                    None => None,
+                },
             }),
             "mem" => Ok(Case::Mem {
                 op: rop()?,
@@ -1265,15 +1297,19 @@ impl Case {
                 stream,
                 slice_len,
                 chunking,
+                full,
             } => {
-                for s in shrink_bytes(stream, op.kind.first_byte_is_param()) {
-                    let sl = (*slice_len).min(s.len());
-                    out.push(Case::Cmp {
-                        op: op.clone(),
-                        stream: s,
-                        slice_len: sl,
-                        chunking: *chunking,
-                    });
+                if full.is_none() {
+                    for s in shrink_bytes(stream, op.kind.first_byte_is_param()) {
+                        let sl = (*slice_len).min(s.len());
+                        out.push(Case::Cmp {
+                            op: op.clone(),
+                            stream: s,
+                            slice_len: sl,
+                            chunking: *chunking,
+                            full: None,
+                        });
+                    }
                 }
                 for c in simpler_chunkings(*chunking) {
                     out.push(Case::Cmp {
@@ -1281,6 +1317,7 @@ impl Case {
                         stream: stream.clone(),
                         slice_len: *slice_len,
                         chunking: c,
+                        full: full.clone(),
                     });
                 }
             }
